@@ -202,8 +202,9 @@ def lazy_get(arr, key):
     a = plain(arr)
     lz = [k for k in key if isinstance(k, LazyIdx)]
     m = lz[0].mask
-    if any(k.mask is not m for k in lz): raise Unsupported('lazy_get with different masks')
-    if len(key) != a.ndim: raise Unsupported('lazy_get partial index')
+    if any(k.mask is not m for k in lz) or len(key) != a.ndim or any(isinstance(k, (slice, np.ndarray, list)) for k in key):
+        # pattern without a lazy form (row/column selections, mixed masks): fall back to the concrete node list (forks)
+        return arr[tuple(k._conc() if isinstance(k, LazyIdx) else k for k in key)]
     dense = np.empty(m.shape, dtype=object)
     for idx in np.ndindex(m.shape):
         kk = tuple((idx[k.axis] if isinstance(k, LazyIdx) else k) for k in key)
@@ -371,7 +372,16 @@ class SymArray(np.ndarray):
     def __setitem__(self, key, val):
         if isinstance(key, LazyIdx): key = (key,)
         if isinstance(key, tuple) and any(isinstance(k, LazyIdx) for k in key): return lazy_set(self, key, val)
-        if isinstance(val, MaskedVec): val = val._conc()
+        if isinstance(val, MaskedVec):
+            if (isinstance(key, np.ndarray) and key.dtype == object and key.shape == val.mask.shape == self.shape
+                    and all((k is m) or (isinstance(k, bool) and isinstance(m, bool) and k == m) for k, m in zip(plain(key).flat, val.mask.flat))):
+                a = plain(self); dk_ = self.dk             # A[mask] = B[i, k] + ... with (i, j) = np.where(mask): cell-wise ite, no fork
+                for idx in np.ndindex(a.shape):
+                    c = sc.truth(val.mask[idx])
+                    if c is False: continue
+                    a[idx] = sc.ite(c, coerce_store(val.dense[idx], dk_), a[idx])
+                return
+            val = val._conc()
         if isinstance(val, (LazyRows, LazyIdx)): val = val._conc()
         if isinstance(key, FlatView): key = key._flat_plain()
         dk = self.dk
@@ -464,7 +474,7 @@ BOOL_RESULT = {'greater', 'greater_equal', 'less', 'less_equal', 'equal', 'not_e
                'logical_or', 'logical_xor', 'isnan', 'isinf', 'isfinite'}
 FLOAT_RESULT = {'true_divide', 'divide', 'sqrt', 'log', 'exp', 'cbrt', 'log2', 'floor', 'ceil', 'rint', 'trunc'}
 BOOL_REMAP = {'add': sc.lor, 'multiply': sc.land, 'subtract': None, 'negative': None, 'maximum': sc.lor, 'minimum': sc.land}
-IDENT = {'add': 0, 'multiply': 1, 'logical_or': False, 'logical_and': True}
+IDENT = {'add': Z(0), 'multiply': Z(1), 'logical_or': False, 'logical_and': True}
 
 def result_kind(name, kinds):
     if name in BOOL_RESULT: return 'b'
